@@ -223,6 +223,9 @@ func (c05Engine) Gen(g *Gen) {
 						w.Queries = append(w.Queries, queryJ{nodes[k], 0})
 					}
 				}
+				// ... and everything once more, in the same order: an answer must not have been changed by
+				// the questions asked after it (a memo adopted from, or shared with, a neighbour)
+				w.Queries = append(w.Queries, append([]queryJ{}, w.Queries...)...)
 				// the enum is asked first, in the middle or last
 				pos := (pi + mask) % (len(w.Queries) + 1)
 				w.Queries = append(w.Queries[:pos], append([]queryJ{{en, 2}}, w.Queries[pos:]...)...)
